@@ -315,7 +315,13 @@ def finish(prop, tier, seed, monitor, lost, t0, spec):
     known, _fixed = load_known()
     classify = spec.get("classify") or (lambda v: v.get("key"))
     new_by_class, known_met = {}, collections.Counter()
+    monitor_errors = []
     for v in monitor.violations:
+        if v["contract"] == "monitor-error":
+            # the monitor itself failed on this case (e.g. an attribute it reads was renamed): it could
+            # not observe, which is "inconclusive", never a claim that the property is violated
+            monitor_errors.append(v)
+            continue
         key = classify(v)
         v["key"] = key
         if key is not None and (prop, key) in known:
@@ -328,7 +334,7 @@ def finish(prop, tier, seed, monitor, lost, t0, spec):
         ):
             new_by_class[cls] = v
     # violations beyond the kept cap still count
-    total_viol = sum(monitor.nviol.values())
+    total_viol = sum(n for c, n in monitor.nviol.items() if c != "monitor-error")
     lines = []
     for key, n in sorted(known_met.items()):
         lines.append(f"KNOWN-FINDING: property={prop} key={key} met={n} {known[(prop, key)]}")
@@ -347,6 +353,14 @@ def finish(prop, tier, seed, monitor, lost, t0, spec):
     inconclusive = []
     if lost:
         inconclusive.append("lost shards: " + "; ".join(lost)[:500])
+    if monitor_errors:
+        kinds = sorted({str(v.get("key")) for v in monitor_errors})
+        first = monitor_errors[0]
+        name = f"{prop}-monitor-error-{h64([first['key'], first['case']])}.json"
+        with open(os.path.join(VERIF, "replay", name), "w") as f:
+            json.dump({"property": prop, "seed": seed, "tier": tier, **jsonable(first)}, f, indent=1)
+        inconclusive.append(f"the monitor failed on {monitor.nviol.get('monitor-error', len(monitor_errors))} cases ({', '.join(kinds)[:200]}); "
+                            f"first witness replay/{name}: " + first["detail"].strip().splitlines()[-1][:200])
     if never:
         inconclusive.append("deciding contracts never applicable: " + ",".join(never))
     distinct = len(monitor.distinct) + monitor.distinct_count_only
